@@ -16,34 +16,33 @@ use vcore::{Local, Report};
 
 use crate::common::{self, fail, Outcome};
 
-/// 0..13 = binary operators, 14 = prefix `-`, 15 = prefix `!`.
+/// 0..13 = binary operators, 14 = prefix `-`, 15 = prefix `!`, 16 = `- -`, 17 = `! !` (a doubled
+/// prefix operator is two applications, not none).
+pub const N_OPS: usize = 18;
+
 pub fn op_symbol(op: usize) -> &'static str {
     if op < 14 {
         BinOp::ALL[op].sym()
-    } else if op == 14 {
-        "neg"
     } else {
-        "not"
+        ["neg", "not", "neg-neg", "not-not"][op - 14]
     }
 }
 
 fn var_source(op: usize) -> String {
     if op < 14 {
         format!("a {} b", BinOp::ALL[op].sym())
-    } else if op == 14 {
-        "-a".to_string()
     } else {
-        "!a".to_string()
+        ["-a", "!a", "--a", "!!a"][op - 14].to_string()
     }
 }
 
 pub fn reference(op: usize, a: &RV, b: &RV) -> RR {
-    if op < 14 {
-        ops::binop(BinOp::ALL[op], a, b)
-    } else if op == 14 {
-        ops::neg(a)
-    } else {
-        ops::not(a)
+    match op {
+        14 => ops::neg(a),
+        15 => ops::not(a),
+        16 => ops::neg(a).and_then(|v| ops::neg(&v)),
+        17 => ops::not(a).and_then(|v| ops::not(&v)),
+        _ => ops::binop(BinOp::ALL[op], a, b),
     }
 }
 
@@ -60,10 +59,8 @@ fn operand_literal(v: &RV) -> Option<String> {
 fn literal_source(op: usize, a: &RV, b: &RV) -> Option<String> {
     if op < 14 {
         Some(format!("{} {} {}", operand_literal(a)?, BinOp::ALL[op].sym(), operand_literal(b)?))
-    } else if op == 14 {
-        Some(format!("-{}", operand_literal(a)?))
     } else {
-        Some(format!("!{}", operand_literal(a)?))
+        Some(format!("{}{}", ["-", "!", "--", "!!"][op - 14], operand_literal(a)?))
     }
 }
 
@@ -76,8 +73,8 @@ fn accepted(op: usize, a: &RV, b: &RV) -> bool {
     let num = |v: &RV| v.is_number();
     let nos = |v: &RV| matches!(v, RV::Int(_) | RV::Float(_) | RV::Str(_));
     match op {
-        14 => num(a),
-        15 => matches!(a, RV::Bool(_)),
+        14 | 16 => num(a),
+        15 | 17 => matches!(a, RV::Bool(_)),
         _ => match BinOp::ALL[op] {
             BinOp::Add => (num(a) && num(b)) || (matches!(a, RV::Str(_)) && matches!(b, RV::Str(_))),
             BinOp::Sub | BinOp::Mul | BinOp::Div | BinOp::Mod | BinOp::Exp => num(a) && num(b),
@@ -224,12 +221,12 @@ fn arb_pair() -> BoxedStrategy<(usize, RV, RV)> {
         2 => (gen::arb_text(), gen::arb_text()).prop_map(|(a, b)| (RV::Str(a), RV::Str(b))),
         3 => (gen::arb_value(), gen::arb_value()),
     ];
-    (0usize..16, pair).prop_map(|(op, (a, b))| (op, a, b)).boxed()
+    (0usize..N_OPS, pair).prop_map(|(op, (a, b))| (op, a, b)).boxed()
 }
 
 pub fn run(rep: &Report) {
     rep.set_rule(
-        "complete matrix: 14 binary + 2 prefix operators x (pool x pool) operands of every type, each evaluated with \
+        "complete matrix: 14 binary + 2 prefix operators (+ the doubled prefix forms `--a`, `!!a`) x (pool x pool) operands of every type, each evaluated with \
          operands bound as variables and, where expressible, written as literals; reference = i128 / f64 table; value \
          bit-exact or error of the same class. Plus random operand pairs biased to overflow boundaries. Non-trivial: \
          both operands of a type the operator accepts (distinct by operator and operand values), or a (type, type) \
@@ -239,8 +236,8 @@ pub fn run(rep: &Report) {
     rep.assume("std f64 `+ - * / %` and powf are the IEEE-754 reference");
     let pool = pools::value_pool();
     let n = pool.len() as u64;
-    let total = 14 * n * n + 2 * n;
-    let trees: Vec<Tree> = (0..16)
+    let total = 14 * n * n + 4 * n;
+    let trees: Vec<Tree> = (0..N_OPS)
         .map(|op| evalexpr::build_operator_tree::<DefaultNumericTypes>(&var_source(op)).expect("operator source builds"))
         .collect();
     let cover = std::sync::Mutex::new(BTreeMap::<String, u64>::new());
@@ -265,7 +262,7 @@ pub fn run(rep: &Report) {
     rep.add_extra("matrix_cases", json!(total));
     // operator x type x type coverage matrix (complete by construction; counted here)
     let mut tt = BTreeMap::<String, u64>::new();
-    for op in 0..16usize {
+    for op in 0..N_OPS {
         for a in &pool {
             if op >= 14 {
                 *tt.entry(format!("{} {}", op_symbol(op), a.tag().name())).or_insert(0) += 1;
